@@ -7,9 +7,10 @@ structure."  A node of the real tree has three fixed arrays (`keys [maxKVs]K`, `
 `children [branchFactor]*node`); the clause holds iff in every live node every slot behind the live
 prefix is the zero value. `Model/BTreeSlots.lean` keeps those arrays slot by slot and executes a
 zeroing / clearing / shifting statement only if the *generated* fact (`Juniper.Gen.TreeSlots`,
-re-extracted from `btree.go` on every run) says the statement is there; the facts enter the theorems
-below as hypotheses discharged by `decide`, so dropping one of the statements from the Go source makes
-the corresponding theorems (and `no_retained_slots`) fail to compile.
+re-extracted from `btree.go` on every run) says the statement is there; the facts are hypotheses
+of the lemmas in `Proofs/TreeSlots*.lean` and are discharged by `decide` inside the theorems below, so
+dropping one of the statements from the Go source makes exactly the theorems that depend on it (and
+`no_retained_slots`) fail to compile.
 
 * `Rep a cap l` — array `a` has `cap` slots, live prefix = `l`, tail all `none`;
 * `NodeRep x kvs kids` — the three arrays of node `x` represent entries `kvs` and children `kids`,
@@ -50,16 +51,14 @@ example : insertOne [some 1, some 3, none, none] 3 1 (some 2) = some [some 1, so
 /-- `removeOne(a[:hi], idx)` = list removal, *provided* the shift and the zeroing of the last slot are
 in the source. -/
 theorem slots_refine_removeOne {a : Slots α} {cap : Nat} {l : List α} (h : Rep a cap l) {hi idx : Nat}
-    (hidx : idx < l.length) (hl : l.length ≤ hi) (hhi : hi ≤ cap)
-    (hs : TreeSlots.removeOneShifts = true := by decide) (hz : TreeSlots.removeOneZeroesLast = true := by decide) :
+    (hidx : idx < l.length) (hl : l.length ≤ hi) (hhi : hi ≤ cap) :
     ∃ a', removeOne a hi idx = some a' ∧ Rep a' cap (l.take idx ++ l.drop (idx + 1)) :=
-  rep_removeOne h hidx hl hhi hs hz
+  rep_removeOne h hidx hl hhi (by decide) (by decide)
 
 theorem tail_cleared_removeOne {a a' : Slots α} {cap : Nat} {l : List α} (h : Rep a cap l) {hi idx : Nat}
-    (hidx : idx < l.length) (hl : l.length ≤ hi) (hhi : hi ≤ cap) (hop : removeOne a hi idx = some a')
-    (hs : TreeSlots.removeOneShifts = true := by decide) (hz : TreeSlots.removeOneZeroesLast = true := by decide) :
+    (hidx : idx < l.length) (hl : l.length ≤ hi) (hhi : hi ≤ cap) (hop : removeOne a hi idx = some a') :
     TailCleared a' (l.length - 1) := by
-  obtain ⟨a'', h1, h2⟩ := rep_removeOne h hidx hl hhi hs hz
+  obtain ⟨a'', h1, h2⟩ := rep_removeOne h hidx hl hhi (by decide) (by decide)
   rw [hop] at h1; cases h1
   have := h2.tailCleared
   simpa using (show (l.take idx ++ l.drop (idx + 1)).length = l.length - 1 by simp; omega) ▸ this
@@ -123,15 +122,14 @@ theorem tail_cleared_of_rep {x : SNode K V C} {kvs : List (K × V)} {kids : List
 
 /-- `insertIntoLeaf`. -/
 theorem slots_refine_leafInsert {x : SNode K V C} {kvs : List (K × V)} (h : NodeRep x kvs [])
-    {idx : Nat} (hidx : idx ≤ kvs.length) (hroom : kvs.length < keysCap) (k : K) (v : V)
-    (hb : TreeSlots.leafInsertBumpsN = true := by decide) :
+    {idx : Nat} (hidx : idx ≤ kvs.length) (hroom : kvs.length < keysCap) (k : K) (v : V) :
     ∃ x', leafInsert x idx k v = some x' ∧ NodeRep x' (kvs.take idx ++ (k, v) :: kvs.drop idx) [] :=
-  leafInsert_rep h hidx hroom k v hb
+  leafInsert_rep h hidx hroom k v (by decide)
 
 theorem tail_cleared_leafInsert {x x' : SNode K V C} {kvs : List (K × V)} (h : NodeRep x kvs [])
     {idx : Nat} (hidx : idx ≤ kvs.length) (hroom : kvs.length < keysCap) (k : K) (v : V)
-    (hop : leafInsert x idx k v = some x') (hb : TreeSlots.leafInsertBumpsN = true := by decide) : TailOK x' := by
-  obtain ⟨x'', h1, h2⟩ := leafInsert_rep h hidx hroom k v hb
+    (hop : leafInsert x idx k v = some x') : TailOK x' := by
+  obtain ⟨x'', h1, h2⟩ := leafInsert_rep h hidx hroom k v (by decide)
   rw [hop] at h1; cases h1; exact h2.tailOK
 
 example : leafInsert (mkNode [(1, 10), (3, 30)] ([] : List Nat)) 1 2 20 = some (mkNode [(1, 10), (2, 20), (3, 30)] []) := by
@@ -160,38 +158,26 @@ example : replaceEntry (mkNode [(1, 10), (3, 30)] [7, 8, 9]) 1 (some 2) (some 20
 
 /-- the leaf branch of `Delete`. -/
 theorem slots_refine_leafRemove {x : SNode K V C} {kvs : List (K × V)} (h : NodeRep x kvs [])
-    {idx : Nat} (hidx : idx < kvs.length)
-    (hs : TreeSlots.removeOneShifts = true := by decide) (hz : TreeSlots.removeOneZeroesLast = true := by decide)
-    (hrk : TreeSlots.leafRemoveShiftsKeys = true := by decide) (hrv : TreeSlots.leafRemoveShiftsValues = true := by decide)
-    (hd : TreeSlots.leafRemoveDecN = true := by decide) :
+    {idx : Nat} (hidx : idx < kvs.length) :
     ∃ x', leafRemove x idx = some x' ∧ NodeRep x' (kvs.take idx ++ kvs.drop (idx + 1)) [] :=
-  leafRemove_rep h hidx hs hz hrk hrv hd
+  leafRemove_rep h hidx (by decide) (by decide) (by decide) (by decide) (by decide)
 
 theorem tail_cleared_leafRemove {x x' : SNode K V C} {kvs : List (K × V)} (h : NodeRep x kvs [])
-    {idx : Nat} (hidx : idx < kvs.length) (hop : leafRemove x idx = some x')
-    (hs : TreeSlots.removeOneShifts = true := by decide) (hz : TreeSlots.removeOneZeroesLast = true := by decide)
-    (hrk : TreeSlots.leafRemoveShiftsKeys = true := by decide) (hrv : TreeSlots.leafRemoveShiftsValues = true := by decide)
-    (hd : TreeSlots.leafRemoveDecN = true := by decide) : TailOK x' := by
-  obtain ⟨x'', h1, h2⟩ := leafRemove_rep h hidx hs hz hrk hrv hd
+    {idx : Nat} (hidx : idx < kvs.length) (hop : leafRemove x idx = some x') : TailOK x' := by
+  obtain ⟨x'', h1, h2⟩ := leafRemove_rep h hidx (by decide) (by decide) (by decide) (by decide) (by decide)
   rw [hop] at h1; cases h1; exact h2.tailOK
 
 example : leafRemove (mkNode [(1, 10), (2, 20), (3, 30)] ([] : List Nat)) 2 = some (mkNode [(1, 10), (2, 20)] []) := by decide
 
 /-- `removeRightmost` on the leaf it arrives at: returns the last entry, which is gone from the leaf. -/
-theorem slots_refine_removeRightmost {x : SNode K V C} {kvs : List (K × V)} (h : NodeRep x kvs []) (hne : kvs ≠ [])
-    (hzk : TreeSlots.removeRightmostZeroesKey = true := by decide)
-    (hzv : TreeSlots.removeRightmostZeroesValue = true := by decide)
-    (hd : TreeSlots.removeRightmostDecN = true := by decide) :
+theorem slots_refine_removeRightmost {x : SNode K V C} {kvs : List (K × V)} (h : NodeRep x kvs []) (hne : kvs ≠ []) :
     ∃ x', removeRightmostAt x = some (some (kvs.getLast hne).1, some (kvs.getLast hne).2, x') ∧
       NodeRep x' kvs.dropLast [] :=
-  removeRightmostAt_rep h hne hzk hzv hd
+  removeRightmostAt_rep h hne (by decide) (by decide) (by decide)
 
 theorem tail_cleared_removeRightmost {x x' : SNode K V C} {kvs : List (K × V)} (h : NodeRep x kvs []) (hne : kvs ≠ [])
-    {k : Option K} {v : Option V} (hop : removeRightmostAt x = some (k, v, x'))
-    (hzk : TreeSlots.removeRightmostZeroesKey = true := by decide)
-    (hzv : TreeSlots.removeRightmostZeroesValue = true := by decide)
-    (hd : TreeSlots.removeRightmostDecN = true := by decide) : TailOK x' := by
-  obtain ⟨x'', h1, h2⟩ := removeRightmostAt_rep h hne hzk hzv hd
+    {k : Option K} {v : Option V} (hop : removeRightmostAt x = some (k, v, x')) : TailOK x' := by
+  obtain ⟨x'', h1, h2⟩ := removeRightmostAt_rep h hne (by decide) (by decide) (by decide)
   rw [hop] at h1; cases h1; exact h2.tailOK
 
 example : removeRightmostAt (mkNode [(1, 10), (2, 20)] ([] : List Nat)) = some (some 2, some 20, mkNode [(1, 10)] []) := by
@@ -201,26 +187,19 @@ example : removeRightmostAt (mkNode [(1, 10), (2, 20)] ([] : List Nat)) = some (
 `kvs` with `(k, v)` inserted at `e` are cut at `medianIdx`; the left half stays in the node, the
 separator goes up, the right half is a fresh node. -/
 theorem slots_refine_split_leaf {x : SNode K V C} {kvs : List (K × V)} (h : NodeRep x kvs [])
-    (hfull : kvs.length = keysCap) {e : Nat} (he : e ≤ keysCap) (k : K) (v : V) (afterK : Option C)
-    (hck : TreeSlots.overfillClearsKeys = true := by decide) (hcv : TreeSlots.overfillClearsValues = true := by decide)
-    (hcc : TreeSlots.overfillClearsChildren = true := by decide)
-    (hdk : TreeSlots.amalgamKeyDec = true := by decide) (hdv : TreeSlots.amalgamValueDec = true := by decide) :
+    (hfull : kvs.length = keysCap) {e : Nat} (he : e ≤ keysCap) (k : K) (v : V) (afterK : Option C) :
     ∃ l' r', splitNode x e (some k) (some v) afterK =
         some (l', ((kvs.take e ++ (k, v) :: kvs.drop e)[Tree.medianIdx.toNat]?).map (·.1),
               ((kvs.take e ++ (k, v) :: kvs.drop e)[Tree.medianIdx.toNat]?).map (·.2), r') ∧
       NodeRep l' ((kvs.take e ++ (k, v) :: kvs.drop e).take Tree.medianIdx.toNat) [] ∧
       NodeRep r' ((kvs.take e ++ (k, v) :: kvs.drop e).drop (Tree.medianIdx.toNat + 1)) [] :=
-  splitNode_leaf_rep h hfull he k v afterK hck hcv hcc hdk hdv
+  splitNode_leaf_rep h hfull he k v afterK (by decide) (by decide) (by decide) (by decide) (by decide)
 
 /-- the split of an internal node: additionally the children with `r` inserted behind position `e`
 are cut behind `medianIdx`. -/
 theorem slots_refine_split_inner {x : SNode K V C} {kvs : List (K × V)} {kids : List C} (h : NodeRep x kvs kids)
     (hfull : kvs.length = keysCap) (hint : kids.length = kvs.length + 1)
-    {e : Nat} (he : e ≤ keysCap) (k : K) (v : V) (r : C)
-    (hck : TreeSlots.overfillClearsKeys = true := by decide) (hcv : TreeSlots.overfillClearsValues = true := by decide)
-    (hcc : TreeSlots.overfillClearsChildren = true := by decide)
-    (hdk : TreeSlots.amalgamKeyDec = true := by decide) (hdv : TreeSlots.amalgamValueDec = true := by decide)
-    (hdc : TreeSlots.amalgamChildDec = true := by decide) :
+    {e : Nat} (he : e ≤ keysCap) (k : K) (v : V) (r : C) :
     ∃ l' r', splitNode x e (some k) (some v) (some r) =
         some (l', ((kvs.take e ++ (k, v) :: kvs.drop e)[Tree.medianIdx.toNat]?).map (·.1),
               ((kvs.take e ++ (k, v) :: kvs.drop e)[Tree.medianIdx.toNat]?).map (·.2), r') ∧
@@ -228,19 +207,15 @@ theorem slots_refine_split_inner {x : SNode K V C} {kvs : List (K × V)} {kids :
         ((kids.take (e + 1) ++ r :: kids.drop (e + 1)).take (Tree.medianIdx.toNat + 1)) ∧
       NodeRep r' ((kvs.take e ++ (k, v) :: kvs.drop e).drop (Tree.medianIdx.toNat + 1))
         ((kids.take (e + 1) ++ r :: kids.drop (e + 1)).drop (Tree.medianIdx.toNat + 1)) :=
-  splitNode_inner_rep h hfull hint he k v r hck hcv hcc hdk hdv hdc
+  splitNode_inner_rep h hfull hint he k v r (by decide) (by decide) (by decide) (by decide) (by decide) (by decide)
 
 theorem tail_cleared_split {x l' r' : SNode K V C} {kvs : List (K × V)} {kids : List C} (h : NodeRep x kvs kids)
     (hfull : kvs.length = keysCap) {e : Nat} (he : e ≤ keysCap) (k : K) (v : V) (afterK : Option C)
     (hkind : kids = [] ∨ afterK.isSome = true) {sk : Option K} {sv : Option V}
-    (hop : splitNode x e (some k) (some v) afterK = some (l', sk, sv, r'))
-    (hck : TreeSlots.overfillClearsKeys = true := by decide) (hcv : TreeSlots.overfillClearsValues = true := by decide)
-    (hcc : TreeSlots.overfillClearsChildren = true := by decide)
-    (hdk : TreeSlots.amalgamKeyDec = true := by decide) (hdv : TreeSlots.amalgamValueDec = true := by decide)
-    (hdc : TreeSlots.amalgamChildDec = true := by decide) : TailOK l' ∧ TailOK r' := by
+    (hop : splitNode x e (some k) (some v) afterK = some (l', sk, sv, r')) : TailOK l' ∧ TailOK r' := by
   by_cases hk : kids = []
   · subst hk
-    obtain ⟨l'', r'', h1, h2, h3⟩ := splitNode_leaf_rep h hfull he k v afterK hck hcv hcc hdk hdv
+    obtain ⟨l'', r'', h1, h2, h3⟩ := splitNode_leaf_rep h hfull he k v afterK (by decide) (by decide) (by decide) (by decide) (by decide)
     rw [hop] at h1; cases h1; exact ⟨h2.tailOK, h3.tailOK⟩
   · have hint : kids.length = kvs.length + 1 := by
       rcases h.hshape with h' | h'
@@ -249,7 +224,7 @@ theorem tail_cleared_split {x l' r' : SNode K V C} {kvs : List (K × V)} {kids :
     rcases hkind with h' | h'
     · exact absurd h' hk
     · obtain ⟨r, rfl⟩ := Option.isSome_iff_exists.mp h'
-      obtain ⟨l'', r'', h1, h2, h3⟩ := splitNode_inner_rep h hfull hint he k v r hck hcv hcc hdk hdv hdc
+      obtain ⟨l'', r'', h1, h2, h3⟩ := splitNode_inner_rep h hfull hint he k v r (by decide) (by decide) (by decide) (by decide) (by decide) (by decide)
       rw [hop] at h1; cases h1; exact ⟨h2.tailOK, h3.tailOK⟩
 
 /-- a full leaf `10,20,…,150` split by the new key `75`: left keeps 8 entries, `80` goes up, right gets 7 -/
@@ -281,16 +256,15 @@ example : newRootNode (some 5) (some 50) 1 2 = some ({ mkNode [(5, 50)] [1, 2] w
 /-- separator insert: `overfill` with a parent that has room. -/
 theorem slots_refine_separatorInsert {p : SNode K V C} {kvs : List (K × V)} {kids : List C} (h : NodeRep p kvs kids)
     (hint : kids.length = kvs.length + 1) {idx : Nat} (hidx : idx ≤ kvs.length) (hroom : kvs.length < keysCap)
-    (k : K) (v : V) (r : C) (hb : TreeSlots.parentInsertBumpsN = true := by decide) :
+    (k : K) (v : V) (r : C) :
     ∃ p', parentInsert p idx (some k) (some v) r = some p' ∧
       NodeRep p' (kvs.take idx ++ (k, v) :: kvs.drop idx) (kids.take (idx + 1) ++ r :: kids.drop (idx + 1)) :=
-  parentInsert_rep h hint hidx hroom k v r hb
+  parentInsert_rep h hint hidx hroom k v r (by decide)
 
 theorem tail_cleared_separatorInsert {p p' : SNode K V C} {kvs : List (K × V)} {kids : List C} (h : NodeRep p kvs kids)
     (hint : kids.length = kvs.length + 1) {idx : Nat} (hidx : idx ≤ kvs.length) (hroom : kvs.length < keysCap)
-    (k : K) (v : V) (r : C) (hop : parentInsert p idx (some k) (some v) r = some p')
-    (hb : TreeSlots.parentInsertBumpsN = true := by decide) : TailOK p' := by
-  obtain ⟨x'', h1, h2⟩ := parentInsert_rep h hint hidx hroom k v r hb
+    (k : K) (v : V) (r : C) (hop : parentInsert p idx (some k) (some v) r = some p') : TailOK p' := by
+  obtain ⟨x'', h1, h2⟩ := parentInsert_rep h hint hidx hroom k v r (by decide)
   rw [hop] at h1; cases h1; exact h2.tailOK
 
 example : parentInsert (mkNode [(10, 1), (30, 3)] [100, 101, 102]) 1 (some 20) (some 2) 200 =
@@ -302,26 +276,18 @@ right node (which is thereby unlinked; its `n` is set to 0). -/
 theorem slots_refine_mergeTwo {p l r : SNode K V C} {pkvs lkvs rkvs : List (K × V)} {pkids lkids rkids : List C}
     (hp : NodeRep p pkvs pkids) (hl : NodeRep l lkvs lkids) (hr : NodeRep r rkvs rkids)
     (hpint : pkids.length = pkvs.length + 1) (hkind : lkids = [] ↔ rkids = [])
-    {idx : Nat} (hidx : idx < pkvs.length) (hfit : lkvs.length + 1 + rkvs.length ≤ keysCap)
-    (hs : TreeSlots.removeOneShifts = true := by decide) (hz : TreeSlots.removeOneZeroesLast = true := by decide)
-    (hmk : TreeSlots.mergeRemovesSepKey = true := by decide) (hmv : TreeSlots.mergeRemovesSepValue = true := by decide)
-    (hmc : TreeSlots.mergeRemovesRightChild = true := by decide) (hmd : TreeSlots.mergeParentDecN = true := by decide)
-    (hmz : TreeSlots.mergeZeroesRight = true := by decide) :
+    {idx : Nat} (hidx : idx < pkvs.length) (hfit : lkvs.length + 1 + rkvs.length ≤ keysCap) :
     ∃ p' l' r', mergeNodes p l r idx = some (p', l', r') ∧
       NodeRep p' (pkvs.take idx ++ pkvs.drop (idx + 1)) (pkids.take (idx + 1) ++ pkids.drop (idx + 2)) ∧
       NodeRep l' (lkvs ++ pkvs[idx] :: rkvs) (lkids ++ rkids) ∧ r'.n = 0 :=
-  mergeNodes_rep hp hl hr hpint hkind hidx hfit hs hz hmk hmv hmc hmd hmz
+  mergeNodes_rep hp hl hr hpint hkind hidx hfit (by decide) (by decide) (by decide) (by decide) (by decide) (by decide) (by decide)
 
 theorem tail_cleared_mergeTwo {p l r p' l' r' : SNode K V C} {pkvs lkvs rkvs : List (K × V)} {pkids lkids rkids : List C}
     (hp : NodeRep p pkvs pkids) (hl : NodeRep l lkvs lkids) (hr : NodeRep r rkvs rkids)
     (hpint : pkids.length = pkvs.length + 1) (hkind : lkids = [] ↔ rkids = [])
     {idx : Nat} (hidx : idx < pkvs.length) (hfit : lkvs.length + 1 + rkvs.length ≤ keysCap)
-    (hop : mergeNodes p l r idx = some (p', l', r'))
-    (hs : TreeSlots.removeOneShifts = true := by decide) (hz : TreeSlots.removeOneZeroesLast = true := by decide)
-    (hmk : TreeSlots.mergeRemovesSepKey = true := by decide) (hmv : TreeSlots.mergeRemovesSepValue = true := by decide)
-    (hmc : TreeSlots.mergeRemovesRightChild = true := by decide) (hmd : TreeSlots.mergeParentDecN = true := by decide)
-    (hmz : TreeSlots.mergeZeroesRight = true := by decide) : TailOK p' ∧ TailOK l' := by
-  obtain ⟨p'', l'', r'', h1, h2, h3, _⟩ := mergeNodes_rep hp hl hr hpint hkind hidx hfit hs hz hmk hmv hmc hmd hmz
+    (hop : mergeNodes p l r idx = some (p', l', r')) : TailOK p' ∧ TailOK l' := by
+  obtain ⟨p'', l'', r'', h1, h2, h3, _⟩ := mergeNodes_rep hp hl hr hpint hkind hidx hfit (by decide) (by decide) (by decide) (by decide) (by decide) (by decide) (by decide)
   rw [hop] at h1; cases h1; exact ⟨h2.tailOK, h3.tailOK⟩
 
 /-- two internal siblings merged under a parent with three children -/
@@ -336,27 +302,19 @@ left sibling no longer references any of them. -/
 theorem slots_refine_rotateRight {p l r : SNode K V C} {pkvs lkvs rkvs : List (K × V)} {pkids lkids rkids : List C}
     (hp : NodeRep p pkvs pkids) (hl : NodeRep l lkvs lkids) (hr : NodeRep r rkvs rkids)
     (hkind : lkids = [] ↔ rkids = [])
-    {idx : Nat} (hidx : idx < pkvs.length) (hlne : lkvs ≠ []) (hroom : rkvs.length < keysCap)
-    (hzk : TreeSlots.rotateRightZeroesKey = true := by decide) (hzv : TreeSlots.rotateRightZeroesValue = true := by decide)
-    (hzc : TreeSlots.rotateRightZeroesChild = true := by decide) (hd : TreeSlots.rotateRightDecLeft = true := by decide)
-    (hik : TreeSlots.rotateRightInsertsKey = true := by decide) (hiv : TreeSlots.rotateRightInsertsValue = true := by decide)
-    (hic : TreeSlots.rotateRightInsertsChild = true := by decide) :
+    {idx : Nat} (hidx : idx < pkvs.length) (hlne : lkvs ≠ []) (hroom : rkvs.length < keysCap) :
     ∃ p' l' r', rotateRightNodes p l r idx = some (p', l', r', lkids.getLast?) ∧
       NodeRep p' (pkvs.take idx ++ lkvs.getLast hlne :: pkvs.drop (idx + 1)) pkids ∧
       NodeRep l' lkvs.dropLast lkids.dropLast ∧
       NodeRep r' (pkvs[idx] :: rkvs) (lkids.getLast?.toList ++ rkids) :=
-  rotateRightNodes_rep hp hl hr hkind hidx hlne hroom hzk hzv hzc hd hik hiv hic
+  rotateRightNodes_rep hp hl hr hkind hidx hlne hroom (by decide) (by decide) (by decide) (by decide) (by decide) (by decide) (by decide)
 
 theorem tail_cleared_rotateRight {p l r p' l' r' : SNode K V C} {pkvs lkvs rkvs : List (K × V)} {pkids lkids rkids : List C}
     (hp : NodeRep p pkvs pkids) (hl : NodeRep l lkvs lkids) (hr : NodeRep r rkvs rkids)
     (hkind : lkids = [] ↔ rkids = [])
     {idx : Nat} (hidx : idx < pkvs.length) (hlne : lkvs ≠ []) (hroom : rkvs.length < keysCap) {c : Option C}
-    (hop : rotateRightNodes p l r idx = some (p', l', r', c))
-    (hzk : TreeSlots.rotateRightZeroesKey = true := by decide) (hzv : TreeSlots.rotateRightZeroesValue = true := by decide)
-    (hzc : TreeSlots.rotateRightZeroesChild = true := by decide) (hd : TreeSlots.rotateRightDecLeft = true := by decide)
-    (hik : TreeSlots.rotateRightInsertsKey = true := by decide) (hiv : TreeSlots.rotateRightInsertsValue = true := by decide)
-    (hic : TreeSlots.rotateRightInsertsChild = true := by decide) : TailOK p' ∧ TailOK l' ∧ TailOK r' := by
-  obtain ⟨p'', l'', r'', h1, h2, h3, h4⟩ := rotateRightNodes_rep hp hl hr hkind hidx hlne hroom hzk hzv hzc hd hik hiv hic
+    (hop : rotateRightNodes p l r idx = some (p', l', r', c)) : TailOK p' ∧ TailOK l' ∧ TailOK r' := by
+  obtain ⟨p'', l'', r'', h1, h2, h3, h4⟩ := rotateRightNodes_rep hp hl hr hkind hidx hlne hroom (by decide) (by decide) (by decide) (by decide) (by decide) (by decide) (by decide)
   rw [hop] at h1; cases h1; exact ⟨h2.tailOK, h3.tailOK, h4.tailOK⟩
 
 /-- an internal-level steal from the left sibling: child `3` changes sides and `l.children[2]` is nil afterwards -/
@@ -368,25 +326,19 @@ example :
 theorem slots_refine_rotateLeft {p l r : SNode K V C} {pkvs lkvs rkvs : List (K × V)} {pkids lkids rkids : List C}
     (hp : NodeRep p pkvs pkids) (hl : NodeRep l lkvs lkids) (hr : NodeRep r rkvs rkids)
     (hkind : lkids = [] ↔ rkids = [])
-    {idx : Nat} (hidx0 : 0 < idx) (hidx : idx ≤ pkvs.length) (hrne : rkvs ≠ []) (hroom : lkvs.length < keysCap)
-    (hs : TreeSlots.removeOneShifts = true := by decide) (hz : TreeSlots.removeOneZeroesLast = true := by decide)
-    (hsk : TreeSlots.rotateLeftShiftsKeys = true := by decide) (hsv : TreeSlots.rotateLeftShiftsValues = true := by decide)
-    (hsc : TreeSlots.rotateLeftShiftsChildren = true := by decide) :
+    {idx : Nat} (hidx0 : 0 < idx) (hidx : idx ≤ pkvs.length) (hrne : rkvs ≠ []) (hroom : lkvs.length < keysCap) :
     ∃ p' l' r', rotateLeftNodes p l r idx = some (p', l', r', rkids.head?) ∧
       NodeRep p' (pkvs.take (idx - 1) ++ rkvs.head hrne :: pkvs.drop idx) pkids ∧
       NodeRep l' (lkvs ++ [pkvs[idx - 1]]) (lkids ++ rkids.take 1) ∧
       NodeRep r' (rkvs.drop 1) (rkids.drop 1) :=
-  rotateLeftNodes_rep hp hl hr hkind hidx0 hidx hrne hroom hs hz hsk hsv hsc
+  rotateLeftNodes_rep hp hl hr hkind hidx0 hidx hrne hroom (by decide) (by decide) (by decide) (by decide) (by decide)
 
 theorem tail_cleared_rotateLeft {p l r p' l' r' : SNode K V C} {pkvs lkvs rkvs : List (K × V)} {pkids lkids rkids : List C}
     (hp : NodeRep p pkvs pkids) (hl : NodeRep l lkvs lkids) (hr : NodeRep r rkvs rkids)
     (hkind : lkids = [] ↔ rkids = [])
     {idx : Nat} (hidx0 : 0 < idx) (hidx : idx ≤ pkvs.length) (hrne : rkvs ≠ []) (hroom : lkvs.length < keysCap)
-    {c : Option C} (hop : rotateLeftNodes p l r idx = some (p', l', r', c))
-    (hs : TreeSlots.removeOneShifts = true := by decide) (hz : TreeSlots.removeOneZeroesLast = true := by decide)
-    (hsk : TreeSlots.rotateLeftShiftsKeys = true := by decide) (hsv : TreeSlots.rotateLeftShiftsValues = true := by decide)
-    (hsc : TreeSlots.rotateLeftShiftsChildren = true := by decide) : TailOK p' ∧ TailOK l' ∧ TailOK r' := by
-  obtain ⟨p'', l'', r'', h1, h2, h3, h4⟩ := rotateLeftNodes_rep hp hl hr hkind hidx0 hidx hrne hroom hs hz hsk hsv hsc
+    {c : Option C} (hop : rotateLeftNodes p l r idx = some (p', l', r', c)) : TailOK p' ∧ TailOK l' ∧ TailOK r' := by
+  obtain ⟨p'', l'', r'', h1, h2, h3, h4⟩ := rotateLeftNodes_rep hp hl hr hkind hidx0 hidx hrne hroom (by decide) (by decide) (by decide) (by decide) (by decide)
   rw [hop] at h1; cases h1; exact ⟨h2.tailOK, h3.tailOK, h4.tailOK⟩
 
 example :
@@ -401,8 +353,9 @@ and value slot from `n` on is zero, and the node either is a leaf with all child
 child slots from `n + 1` on are zero. Needs every zeroing / clearing / shifting statement of
 `btree.go` to be present (`ZeroingPresent`, the conjunction of the generated presence facts). -/
 theorem no_retained_slots (ops : List (NodeOp K V C)) {fam : List (SNode K V C)}
-    (hrun : runOps [SNode.fresh] ops = some fam) (hf : ZeroingPresent := by decide) :
+    (hrun : runOps [SNode.fresh] ops = some fam) :
     ∀ x ∈ fam, TailOK x := by
+  have hf : ZeroingPresent := by decide
   have h0 : AllClean ([SNode.fresh] : List (SNode K V C)) := by
     intro x hx; simp at hx; subst hx; exact clean_fresh
   exact fun x hx => (runOps_clean hf ops h0 hrun x hx).tailOK
